@@ -117,7 +117,7 @@ func (w *world) execRoleChange(m meth, p *plan, v func(what, detail string)) str
 		traceD := td.trace != nil && td.trace()
 		traceN := n.Halt && (len(n.Events) > 0 || tn.trace != nil && tn.trace())
 		effectD := d.Halt && (len(evD) > 0 || traceD || (len(changed) > 0 || moved) && !traceN)
-		where := fmt.Sprintf("block B+%d after designateAsRole(NeoFSAlphabet) in block B (n=%d, one member dismissed, one added)", round, w.n)
+		where := fmt.Sprintf("block B+%d after designateAsRole(NeoFSAlphabet) in block B (n=%s, one member dismissed, one added)", round, w.tag)
 		if effectD || traceD {
 			v("effect-without-witness", fmt.Sprintf("%s: the DISMISSED member's transaction (%s) took effect: own storage trace %t, notifications %v, changed contracts %v",
 				where, vmOf(d.Halt), traceD, evD, changed))
